@@ -10,10 +10,11 @@
      returning Ok, get, take), it is the value stored in the slot by the one successful initialiser and the
      cell is (or, for take, was) Initialized: a reference is never handed out for an empty or half-initialised cell.
    - C04_no_error: no debug_assert / unreachable branch is taken and initialize_or_wait never spins.
-   Not proved here (decided by the harness monitors on the implementation): the drop count of payload values
-   ("dropped exactly once") and set's Err(value) hand-back as a theorem; blocking forms and thread interleavings. *)
+   - C04_payload_accounting / C04_all_dropped_once: every payload is dropped exactly once (OnceDrops.v).
+   - C04_set_hand_back: set hands its argument back exactly when it was not the one that initialised the cell (OnceSet.v).
+   Blocking forms and thread interleavings: harness op initb, loom scenarios, schedule-level theorems below. *)
 From AL Require Import Base Api OnceApi OnceInv.
-From AL Require OnceDrops.
+From AL Require OnceDrops OnceSet.
 From AL.Tie Require Tie_OnceCell.
 From AL.Sched Require OnceSched OnceOrd.
 
@@ -86,6 +87,32 @@ Example C04_drops_nonvacuous :
   OnceDrops.made ow0 ops = 5 /\ o_drops (orun ops) = 5%nat /\ OnceDrops.owed (orun ops) = 0.
 Proof. exact OnceDrops.once_drops_example. Qed.
 
+(* For every history and every set(v) future in the state it leads to, a poll of that future
+     - returns Ok(&v) only in the step in which it itself moved the cell from empty to initialised with v (one more
+       initialisation, nothing dropped);
+     - returns Err(v) — its own argument, handed back (and dropped by the caller: one more drop) — only when the cell is
+       initialised and this step neither touched the stored value nor initialised anything;
+     - otherwise returns Pending (or the poll is rejected) and changes neither the value nor the counters.
+   It never returns another value, an error of somebody else, or a panic. *)
+Theorem C04_set_hand_back : forall (ops : list oop) (fid kk : nat) (v : N) (ist : ist) (gate : option outcome) (m : fmeta),
+  alookup fid (o_futs (orun ops)) = Some (mkOfut (OFInit (IKSet v) ist gate) m) ->
+  OnceSet.set_poll_spec v (orun ops) (fst (ostep (orun ops) (OPoll fid kk))) (o_res (snd (ostep (orun ops) (OPoll fid kk)))).
+Proof. exact OnceSet.set_hand_back. Qed.
+Check (eq_refl : OnceSet.set_poll_spec = fun (v : N) (x x' : oworld) (r : res) =>
+  match r with
+  | RVal r0 => r0 = v /\ o_value x' = Some v /\ sw0 (o_sh x') = ST_INIT /\ o_inits x' = S (o_inits x) /\ o_drops x' = o_drops x
+  | RErr e => e = v /\ o_value x' = o_value x /\ sw0 (o_sh x') = ST_INIT /\ o_inits x' = o_inits x /\ o_drops x' = S (o_drops x)
+  | RPending | RInvalid => o_value x' = o_value x /\ o_inits x' = o_inits x /\ o_drops x' = o_drops x
+  | _ => False
+  end).
+(* non-vacuity: A runs get_or_init, B calls set(7) and waits behind it, A completes with 9: B's next poll hands 7 back;
+   on an empty cell set(7) initialises it and returns Ok(&7) *)
+Example C04_set_nonvacuous :
+  let ops := [OStartInit IKInit; OPoll 0 0; OStartInit (IKSet 7); OPoll 1 0; OResolve 0 (OOk 9); OPoll 0 0] in
+  o_res (snd (ostep (orun ops) (OPoll 1 0))) = RErr 7 /\ o_value (fst (ostep (orun ops) (OPoll 1 0))) = Some 9 /\
+  o_res (snd (ostep (orun [OStartInit (IKSet 7)]) (OPoll 0 0))) = RVal 7.
+Proof. vm_compute. repeat split. Qed.
+
 Print Assumptions C04_once.
 Print Assumptions C04_excl_sched.
 Print Assumptions C04_hb_view.
@@ -93,3 +120,4 @@ Print Assumptions C04_value_visible.
 Print Assumptions C04_no_error.
 Print Assumptions C04_payload_accounting.
 Print Assumptions C04_all_dropped_once.
+Print Assumptions C04_set_hand_back.
